@@ -4,7 +4,8 @@
 //!     <id> abc=<dna|prot> C=<16|32|48> M=<m> pad=<hex> pssm=<row;row;..> seq=<letters>
 //!          wrap=<m|k> rows=<a:b,a:b,..> pos=<p,..> idx=<i,..>
 //!   pssm rows are the K cells as 8-digit hex bit patterns (no separator), `-` = no rows;
-//!   wrap=m calls `configure(&pssm)`, wrap=<k> calls `configure_wrap(k)`.
+//!   wrap=m calls `configure(&pssm)`, wrap=<k> calls `configure_wrap(k)`; several steps on the
+//!   same striped sequence are joined by `+` (wrap=2+m: configure_wrap(2), then configure(&pssm)).
 //! `score run` reads input lines and appends ` => <observation>`; the observation is a
 //!   list of space-separated `key=value` tokens:
 //!     sq=<len>/<wrap>/<row,row,..>     the striped matrix built by the library ('a'+symbol)
@@ -60,7 +61,7 @@ struct Case {
     pad: u32,
     pssm: Vec<Vec<u32>>,
     seq: String,
-    wrap: Option<usize>,
+    wrap: Vec<Option<usize>>,
     ranges: Vec<(usize, usize)>,
     pos: Vec<usize>,
     idx: Vec<usize>,
@@ -106,7 +107,10 @@ fn parse_case(line: &str) -> (String, Case) {
         pad: u32::from_str_radix(&f["pad"], 16).unwrap(),
         pssm,
         seq: if f["seq"] == "-" { String::new() } else { f["seq"].clone() },
-        wrap: if f["wrap"] == "m" { None } else { Some(f["wrap"].parse().unwrap()) },
+        wrap: f["wrap"]
+            .split('+')
+            .map(|w| if w == "m" { None } else { Some(w.parse().unwrap()) })
+            .collect(),
         ranges,
         pos: list(&f["pos"]),
         idx: list(&f["idx"]),
@@ -264,9 +268,13 @@ fn run_cols<A: Alphabet, C: Cols<A>>(case: &Case) -> String {
 
     let enc = EncodedSequence::<A>::encode(&case.seq).expect("generated sequences are valid");
     let mut striped: StripedSequence<A, C> = C::stripe(&enc);
-    match case.wrap {
-        None => striped.configure(&pssm),
-        Some(w) => striped.configure_wrap(w),
+    // one or more configuration steps on the same striped sequence (a sequence scanned
+    // with several motifs is re-configured without being re-striped)
+    for step in case.wrap.iter() {
+        match step {
+            None => striped.configure(&pssm),
+            Some(w) => striped.configure_wrap(*w),
+        }
     }
 
     let mut out: Vec<String> = vec![];
@@ -512,6 +520,16 @@ fn gen_case(rng: &mut Rng, id: usize, tier: &str) -> String {
     // look-ahead rows
     let need = m.saturating_sub(1);
     let (wrap_s, wrap) = match rng.below(100) {
+        // re-configuration of an already configured sequence for a wider motif
+        0..=17 if need >= 2 => {
+            let w1 = 1 + rng.below(need as u64 - 1) as usize;
+            if rng.chance(1, 3) && w1 >= 2 {
+                let w0 = 1 + rng.below(w1 as u64 - 1) as usize;
+                (format!("{}+{}+m", w0, w1), need)
+            } else {
+                (format!("{}+m", w1), need)
+            }
+        }
         0..=74 => ("m".to_string(), need),
         75..=84 => {
             let w = need + *rng.pick(&[1usize, 2, 5, 33]);
@@ -609,6 +627,29 @@ fn main() {
             for i in 0..args.n {
                 println!("{}", gen_case(&mut rng, i, &args.tier));
             }
+        }
+        // the README example as an input line (the scoring matrix is computed by the library)
+        "readme" => {
+            use lightmotif::pwm::CountMatrix;
+            let counts = CountMatrix::<Dna>::from_sequences(
+                ["GTTGACCTTATCAAC", "GTTGATCCAGTCAAC"]
+                    .into_iter()
+                    .map(|s| EncodedSequence::encode(s).unwrap()),
+            )
+            .unwrap();
+            let pssm = counts.to_freq(0.1).to_scoring(None);
+            let m = pssm.matrix();
+            let rows: Vec<String> = (0..m.rows())
+                .map(|j| (0..5).map(|k| format!("{:08x}", m[j][k].to_bits())).collect::<String>())
+                .collect();
+            let seq = "ATGTCCCAACAACGATACCCCGAGCCCATCGCCGTCATCGGCTCGGCATGCAGATTCCCAGGCG";
+            println!(
+                "readme abc=dna C=32 M={} L={} pad=00000000 pssm={} seq={} wrap=m rows=0:1,1:2 pos=0,18,49,50 idx=0,18,49,50,63,64",
+                m.rows(),
+                seq.len(),
+                rows.join(";"),
+                seq
+            );
         }
         "run" => {
             silence_panics();
